@@ -24,6 +24,9 @@ def rand_quat(rng: random.Random, kind='generic'):
         q = [rng.gauss(0, 1) for _ in range(4)]
     elif kind == 'near_identity':
         q = [rng.gauss(0, 1e-4) for _ in range(3)] + [1.0]
+    elif kind == 'tiny':  # angles of 1e-4 .. 1e-9 rad (sub-voxel motion, slowly drifting orientations)
+        a = rng.choice([1e-4, 1e-6, 1e-8, 1e-9])
+        q = [rng.gauss(0, a) for _ in range(3)] + [1.0]
     elif kind == 'near_pi':
         q = [rng.gauss(0, 1) for _ in range(3)] + [rng.gauss(0, 1e-5)]
     elif kind == 'axis':
